@@ -200,7 +200,9 @@ func (s *Service) Start(ctx context.Context) error {
 // started or isn't running this has no effect. Close is safe to call
 // multiple times.
 func (s *Service) Close() {
-	if s.isRunning.Load() && s.cancel != nil {
+	// isStarted is stored after the cancel function has been
+	// assigned, which orders this read after that write.
+	if s.isStarted.Load() && s.isRunning.Load() && s.cancel != nil {
 		s.cancel()
 	}
 }
